@@ -7,11 +7,12 @@ namespace NeoModel.Tokens
 
 /-- `witOf` accepts exactly: the calling contract itself, or the first signer with that account when its scope is
 Global, or CalledByEntry and the call is made by the entry script, or CustomContracts and the called native is in
-its list. -/
+its list, or Rules and the first witness rule whose condition matches allows. -/
 theorem witOf_iff (e : Env) (acc : Nat) (caller : Option Nat) (cur : Nat) :
     witOf e acc caller cur = true ↔
       (caller = some acc ∨ ∃ sg, e.signers.find? (fun sg => sg.acc == acc) = some sg ∧ caller ≠ some acc ∧
-        (sg.scopes = 128 ∨ (sg.scopes &&& 1 ≠ 0 ∧ caller = none) ∨ (sg.scopes &&& 16 ≠ 0 ∧ cur ∈ sg.allowed))) := by
+        (sg.scopes = 128 ∨ (sg.scopes &&& 1 ≠ 0 ∧ caller = none) ∨ (sg.scopes &&& 16 ≠ 0 ∧ cur ∈ sg.allowed) ∨
+          (sg.scopes &&& 64 ≠ 0 ∧ rulesAllow caller cur sg.rules = true))) := by
   unfold witOf
   by_cases hc : caller = some acc
   · simp [hc]
@@ -23,14 +24,25 @@ theorem witOf_iff (e : Env) (acc : Nat) (caller : Option Nat) (cur : Nat) :
       simp only [Bool.or_eq_true, Bool.and_eq_true, beq_iff_eq, bne_iff_ne, ne_eq, Option.isNone_iff_eq_none,
         List.contains_iff_mem]
       constructor
-      · rintro ((h | h) | h)
+      · rintro (((h | h) | h) | h)
         · exact ⟨hc, Or.inl h⟩
         · exact ⟨hc, Or.inr (Or.inl h)⟩
-        · exact ⟨hc, Or.inr (Or.inr h)⟩
-      · rintro ⟨_, h | h | h⟩
-        · exact Or.inl (Or.inl h)
+        · exact ⟨hc, Or.inr (Or.inr (Or.inl h))⟩
+        · exact ⟨hc, Or.inr (Or.inr (Or.inr h))⟩
+      · rintro ⟨_, h | h | h | h⟩
+        · exact Or.inl (Or.inl (Or.inl h))
+        · exact Or.inl (Or.inl (Or.inr h))
         · exact Or.inl (Or.inr h)
         · exact Or.inr h
+
+/-- the first matching rule decides: a matching Deny rule stops the search even if an Allow rule follows. -/
+theorem rulesAllow_first (caller : Option Nat) (cur : Nat) (allow : Bool) (c : Cond) (rest : List (Bool × Cond))
+    (h : c.holds caller cur = true) : rulesAllow caller cur ((allow, c) :: rest) = allow := by
+  simp [rulesAllow, h]
+
+theorem rulesAllow_skip (caller : Option Nat) (cur : Nat) (allow : Bool) (c : Cond) (rest : List (Bool × Cond))
+    (h : c.holds caller cur = false) : rulesAllow caller cur ((allow, c) :: rest) = rulesAllow caller cur rest := by
+  simp [rulesAllow, h]
 
 /-- a signer with scope None (fee only) never witnesses; without a signer for the account only the calling contract
 itself passes. -/
@@ -150,7 +162,7 @@ theorem unwitnessed_no_effect (s : St) (op : Op) (h : op.witness s = some false)
   | block _ => simp [Op.witness] at h
   | onPersist _ _ _ => simp [Op.witness] at h
   | txBegin _ _ => simp [Op.witness] at h
-  | register _ => simp [Op.witness] at h
+  | register _ _ => simp [Op.witness] at h
   | endCb => simp [Op.witness] at h
   | txEnd _ => simp [Op.witness] at h
   | postPersist => simp [Op.witness] at h
